@@ -62,10 +62,31 @@ inductive ItemDef where
 /-- The top-level item definitions by name. -/
 abbrev Defs := List (Name × ItemDef)
 
+/-- `evaluators.get(name)` after `ItemDefinitionEvaluator::build` / `ItemDefinitionTypeEvaluator::build`
+registered the definitions in document order with `HashMap::insert` (`item_definition.rs:55-62`,
+`item_definition_type.rs:53-60`): of several definitions of one name the last one is the one that is used
+(`check_references` follows the same one, `item_definition.rs:81-82`).  `registry_lookup` in `Props/C11.lean`
+proves this recursion equal to the loop of inserts (`registry` below). -/
 def lookup (defs : Defs) (n : Name) : Option ItemDef :=
   match defs with
   | [] => none
-  | (m, t) :: rest => if m = n then some t else lookup rest n
+  | (m, t) :: rest =>
+    match lookup rest n with
+    | some t' => some t'
+    | none => if m = n then some t else none
+
+/-- A `HashMap<String, evaluator>` as the partial function it denotes. -/
+abbrev Registry := Name → Option ItemDef
+
+def Registry.empty : Registry := fun _ => none
+
+/-- `HashMap::insert`: the new value replaces an older one of the same key. -/
+def Registry.insert (r : Registry) (n : Name) (t : ItemDef) : Registry :=
+  fun m => if m = n then some t else r m
+
+/-- The loop of `build`: `for item_definition in definitions.item_definitions() { … evaluators.insert(name, evaluator) }`. -/
+def registry (defs : Defs) : Registry :=
+  defs.foldl (fun r e => r.insert e.1 e.2) Registry.empty
 
 /-- The item loop of the collection-of-simple-type closures: every item must be of the type,
 otherwise the whole result is null (`item_definition.rs:256-398`). -/
